@@ -18,8 +18,12 @@ C01Step(s, ev) ==
   LET r == Transform(ev.ss, <<Forest[ev.doc]>>)
       got == LoadItems(ev.tree)
   IN IF r.bad # "" THEN [ok |-> TRUE, st |-> s, drop |-> TRUE, msg |-> ""]
-     ELSE [ok |-> ev.status = 0 /\ r.items = got, st |-> s, drop |-> FALSE, cont |-> TRUE,
-           msg |-> "status " \o ToString(ev.status) \o " want " \o ToString(r.items) \o " got " \o ToString(got)]
+     ELSE LET ok == ev.status = 0 /\ r.items = got
+              \* triage only: does the known deviation "built-in rules pass their parameters on" explain it?
+              kd == ~ok /\ ev.status = 0 /\ TransformWith(ev.ss, <<Forest[ev.doc]>>, TRUE).items = got
+          IN [ok |-> ok, st |-> s, drop |-> FALSE, cont |-> TRUE,
+              msg |-> (IF kd THEN "KD:builtinRulePassesParams " ELSE "") \o
+                      "status " \o ToString(ev.status) \o " want " \o ToString(r.items) \o " got " \o ToString(got)]
 
 TraceInit2 == TLCSet(2, ndJsonDeserialize(IOEnv.DOCS))
 INSTANCE TraceBase WITH StInit <- 0, Step <- C01Step
